@@ -24,6 +24,12 @@ pub struct FinalView {
     pub limit_reached: bool,
     /// Position of the furthest tracked attempt.
     pub attempt_pos: usize,
+    /// The token queue: ('S' | 'E', input position, rule of the pair or "?", node tag or "").
+    pub queue: Vec<(char, usize, String, String)>,
+    /// Look-ahead status: "n" none, "p" positive, "N" negative.
+    pub lookahead: &'static str,
+    /// Atomicity: "N" non-atomic, "A" atomic, "C" compound atomic.
+    pub atomicity: &'static str,
 }
 
 std::thread_local! {
